@@ -1,18 +1,200 @@
 # C17 — RenderPartials vs Render of each partial alone.
+#
+# A case = a template tree with `.partial/` folders, a request list, the request data, the HISTORY of
+# the engine that receives the request (`prep`, possibly empty = fresh engine) and its configuration
+# (debug mode, rate limit).  The harness computes the reference on a SEPARATE engine: every partial
+# name of the universe rendered alone by Engine.Render with its own fresh copy of the data.
+#
+# What the generator explores (every dimension is drawn independently for each case):
+#   * engine history before the judged call: none at all (fresh engine: no LoadTemplates, no Render) |
+#     LoadTemplates("") | a page render | a single partial render (existing, mutating or unknown) |
+#     an earlier RenderPartials (same request, another request, one that fails) | several of these;
+#     about half of the earlier render calls carry OTHER data than the judged call;
+#   * partial templates: plain ones that print scalars, READERS of list/object/number fields
+#     (length, join, each, member, each-over-keys) and MUTATORS of the data they are given
+#     (push, pop, shift, unshift, sort, splice, member assignment, new member, top-level assignment,
+#     counter increment, push through an alias) that print the field afterwards;
+#   * request lists: empty, single, duplicates, permutations, unknown names, mutators before/after
+#     readers of the same field;
+#   * data as ordinary Go values: map[string]interface{} with []interface{} / []string lists,
+#     map[string]interface{} / map[string]string objects, strings, ints;
+#   * configuration of the engine under test: debug mode (templates compiled on demand), rate limit.
 import json
 from common import *
 
 NAMES = ["a", "b", "head", "foot", "nav.item", "x/y", "A", "b b", "é", "a.partial", "0"]
 TEMPLATES = ["home", "shop/cart", "p", "deep/er/page"]
 
+LISTS = ["items", "tags"]      # list fields of the data
+OBJS = ["cfg", "opts"]         # object fields
+SCALARS = ["x", "y"]           # string fields
+NUMS = ["n"]                   # number fields
+WORDS = ["a", "b", "c", "zz", "M", "<i>", "ü", "", "0", "a b"]
+KEYS = ["k", "id", "z"]
+
+
+# ------------------------------------------------------------------ pug AST pieces
+
+def n_code(val, buffer):
+    return {"type": "Code", "val": val, "buffer": buffer, "mustEscape": True, "isInline": buffer}
+
+
+def n_tag(name, nodes, inline=False):
+    return {"type": "Tag", "name": name, "isInline": inline, "attrs": [], "attributeBlocks": [],
+            "block": {"type": "Block", "nodes": nodes}}
+
+
+def n_each(obj, val, nodes, key=None):
+    return {"type": "Each", "obj": obj, "val": val, "key": key, "block": {"type": "Block", "nodes": nodes}}
+
+
+def n_text(s):
+    return {"type": "Text", "val": s}
+
+
+def js_str(s):
+    return json.dumps(s, ensure_ascii=False)
+
 
 def tpl_ast(label, var):
     # <section>LABEL:#{var}</section> with the data field escaped-printed
     return json.dumps({"type": "Block", "nodes": [
-        {"type": "Tag", "name": "section", "isInline": False, "attrs": [], "attributeBlocks": [],
-         "block": {"type": "Block", "nodes": [
-             {"type": "Text", "val": label + ":"},
-             {"type": "Code", "val": var, "buffer": True, "mustEscape": True, "isInline": True}]}}]})
+        n_tag("section", [n_text(label + ":"), n_code(var, True)])]})
+
+
+def reader(rng, field):
+    """AST nodes that print the field `field` (never change it)"""
+    if field in LISTS:
+        k = rng.randrange(3)
+        if k == 0:
+            return [n_tag("span", [n_code(field + ".length", True)], True)]
+        if k == 1:
+            return [n_tag("p", [n_code(field + ".join(%s)" % js_str(rng.choice([",", "|", ""])), True)])]
+        return [n_tag("ul", [n_each(field, "it", [n_tag("li", [n_code("it", True)])])])]
+    if field in OBJS:
+        if rng.random() < 0.6:
+            return [n_tag("b", [n_code(field + "." + rng.choice(KEYS), True)], True)]
+        return [n_each(field, "v", [n_tag("i", [n_code("k", True), n_text("="), n_code("v", True)], True)], "k")]
+    return [n_tag("em", [n_code(field, True)], True)]
+
+
+def mutator(rng, field):
+    """unbuffered code that changes the data object the template was given"""
+    if field in LISTS:
+        k = rng.randrange(7)
+        w = js_str(rng.choice(WORDS))
+        return [[n_code("%s.push(%s)" % (field, w), False)],
+                [n_code("%s.unshift(%s)" % (field, w), False)],
+                [n_tag("q", [n_code(field + ".pop()", True)], True)],
+                [n_tag("q", [n_code(field + ".shift()", True)], True)],
+                [n_code(field + ".sort()", False)],
+                [n_tag("q", [n_code(field + ".splice(1)", True)], True)],
+                [n_code("var l = " + field, False), n_code("l.push(%s)" % w, False)]][k]
+    if field in OBJS:
+        key = rng.choice(KEYS)
+        return [n_code("%s.%s = %s" % (field, key, js_str(rng.choice(WORDS))), False)]
+    if field in NUMS:
+        return [n_code("%s = %s + %d" % (field, field, rng.randint(1, 9)), False)]
+    return [n_code("%s = %s" % (field, js_str(rng.choice(WORDS))), False)]
+
+
+def gen_partial(rng, label, kind, fields):
+    """kind: plain | reader | mutator.  Returns (ast json, reads, writes) over the given data fields."""
+    if kind == "plain":
+        v = rng.choice(SCALARS)
+        return tpl_ast(label, v), {v}, set()
+    nodes = [n_text(label + ":")]
+    reads, writes = set(), set()
+    if kind == "mutator":
+        for f in rng.sample(fields, min(len(fields), rng.choice([1, 1, 2]))):
+            nodes += mutator(rng, f)
+            writes.add(f)
+            reads.add(f)
+            if rng.random() < 0.8:      # its own output depends on what it changed
+                nodes += reader(rng, f)
+    for f in rng.sample(fields, min(len(fields), rng.choice([1, 2, 3]) if kind == "reader" else rng.choice([0, 1]))):
+        nodes += reader(rng, f)
+        reads.add(f)
+    return json.dumps({"type": "Block", "nodes": [n_tag("section", nodes)]}), reads, writes
+
+
+# ------------------------------------------------------------------ data (typed, see harness c17Val)
+
+def d_str(s):
+    return {"t": "str", "v": hx(s)}
+
+
+def gen_data(rng):
+    def lst():
+        ws = [rng.choice(WORDS) for _ in range(rng.choice([0, 1, 2, 3, 5]))]
+        if rng.random() < 0.4:
+            return {"t": "strs", "v": [hx(w) for w in ws]}
+        return {"t": "arr", "v": [d_str(w) if rng.random() < 0.85 else {"t": "int", "v": rng.randint(-3, 40)}
+                                  for w in ws]}
+
+    def obj():
+        ks = rng.sample(KEYS, rng.choice([0, 1, 2, 3]))
+        if rng.random() < 0.4:
+            return {"t": "strmap", "v": [[hx(k), hx(rng.choice(WORDS))] for k in ks]}
+        return {"t": "map", "v": [[hx(k), d_str(rng.choice(WORDS)) if rng.random() < 0.8
+                                   else {"t": "int", "v": rng.randint(0, 9)}] for k in ks]}
+    ents = [[hx("x"), d_str(rng.choice(["v1", "<b>&\"'", "", "ünï"]))], [hx("y"), d_str(rng.choice(["w", "2"]))],
+            [hx("n"), {"t": "int", "v": rng.randint(-2, 50)}]]
+    for f in LISTS:
+        ents.append([hx(f), lst()])
+    for f in OBJS:
+        ents.append([hx(f), obj()])
+    return {"t": "map", "v": ents}
+
+
+# ------------------------------------------------------------------ engine history
+
+HISTORIES = [("fresh", 34), ("load", 18), ("page", 12), ("one", 12), ("partials", 16), ("mixed", 8)]
+
+
+def gen_prep(rng, t, existing, req):
+    kind = rng.choices([h for h, _ in HISTORIES], [w for _, w in HISTORIES])[0]
+
+    def one():
+        r = rng.random()
+        if r < 0.55 and existing:
+            return {"op": "render", "name": hx(t + ".partial/" + rng.choice(existing))}
+        if r < 0.8:
+            return {"op": "render", "name": hx(t + ".partial/nope")}
+        return {"op": "render", "name": hx("no/such/page")}
+
+    def partials():
+        r = rng.random()
+        if r < 0.35:
+            names = list(req)                                  # the very same request, earlier
+        elif r < 0.7 and existing:
+            names = [rng.choice(existing) for _ in range(rng.randint(1, 4))]
+        else:
+            names = [rng.choice(existing + ["nope"]) for _ in range(rng.randint(1, 3))] + ["nope"]
+            rng.shuffle(names)
+        return {"op": "partials", "names": [hx(p) for p in names]}
+    if kind == "fresh":
+        return kind, []
+    if kind == "load":
+        return kind, [{"op": "load"}]
+    if kind == "page":
+        return kind, [{"op": "render", "name": hx(t)}]
+    if kind == "one":
+        return kind, [one()]
+    if kind == "partials":
+        return kind, [partials()]
+    ops = []
+    for _ in range(rng.randint(2, 4)):
+        ops.append(rng.choice([{"op": "load"}, {"op": "render", "name": hx(t)}, one(), partials()]))
+    return kind, ops
+
+
+def other_data(rng, prep):
+    """about half of the earlier render calls belong to another request: they come with other data"""
+    for op in prep:
+        if op["op"] != "load" and rng.random() < 0.5:
+            op["data"] = gen_data(rng)
+    return prep
 
 
 class C17(Prop):
@@ -22,13 +204,35 @@ class C17(Prop):
     prop_module = "Props.C17"
     prop_file = "Props/C17.v"
     coq_targets = ["Props/C17.vo", "Run/Judge_C17.vo"]
-    sizes = {"quick": 300, "thorough": 10000}
+    sizes = {"quick": 400, "thorough": 12000}
     design_ref = "DESIGN.md section 6 C17"
-    rule = ("generated template trees with .partial/ folders and request lists (empty, duplicates, "
-            "unknown names, permutations); non-trivial = at least two requested names or an unknown one; "
-            "distinct by SHA-1 of the case")
-    trusted = ["Engine.Render is a Section variable of the theorems (arbitrary function); the judge "
-               "instantiates it with the per-name results observed on the same engine"]
+    rule = ("generated template trees with .partial/ folders and request lists (empty, duplicates, unknown names, "
+            "permutations) x engine history before the judged RenderPartials call (fresh engine with no "
+            "LoadTemplates/Render ~1/3; preloaded; page render; one partial render; earlier RenderPartials incl. "
+            "failing ones; mixed; earlier calls with the same or with other data) x partial templates (plain, readers of list/object/number fields, mutators "
+            "of the data they are given: push/pop/shift/unshift/sort/splice/member and top-level assignment) x typed "
+            "Go data (map[string]interface{}, []interface{}, []string, map[string]string, int, string) x "
+            "configuration (debug mode, rate limit 0/1/2). Reference = every partial of the universe rendered alone "
+            "by Engine.Render on a separate preloaded engine with a fresh copy of the data. Non-trivial = at least "
+            "two requested names, an unknown one, or a fresh engine; distinct by SHA-1 of the case")
+    trusted = ["Engine.Render is a Section variable of the theorems (arbitrary function of the template name); "
+               "the judge instantiates it with the per-name results observed on a SEPARATE reference engine "
+               "(same tree, same debug mode, preloaded), each with its own freshly built copy of the data",
+               "the harness builds the data as ordinary Go values anew for every call (reference renders, "
+               "history operations, the judged call); equal data means equal value, not the same object"]
+    assumptions = ["data is given as ordinary Go values (maps, slices, strings, ints), not as already converted "
+                   "pugjs.Object trees: a caller who hands in one shared mutable pugjs.Object shares it by "
+                   "construction",
+                   "generated partials execute without template errors on the generated data; the template files "
+                   "do not change between the calls of one case; one goroutine per engine",
+                   "C17_history_independent assumes that Render's result does not depend on the engine/data state "
+                   "left by earlier calls (hypothesis visible in the theorem); the correspondence check tests that "
+                   "hypothesis on the real code via the history and mutator dimensions"]
+    not_yet_proved = ["that the real Engine.Render is a function of (template tree, name, data value) only is "
+                      "observed (separate reference engine, histories, mutating partials), not proved: Render itself "
+                      "is a parameter of the C17 theorems",
+                      "partials that include/extend other templates or call mixins of other files; concurrent "
+                      "RenderPartials calls on one engine (C08/C09 cover concurrency of Render)"]
 
     def generate(self, rng, n, tier):
         cases = []
@@ -37,8 +241,18 @@ class C17(Prop):
             k = rng.choice([0, 1, 2, 3, 4, 6])
             existing = rng.sample(NAMES, k)
             files = {hx(t): hx(tpl_ast("main", "x"))}
+            # stateful: partials share a few mutable data fields, some partials change them
+            stateful = rng.random() < 0.55
+            fields = rng.sample(LISTS + OBJS + NUMS + SCALARS, rng.choice([1, 2, 3]))
+            info = {}
             for p in existing:
-                files[hx(t + ".partial/" + p)] = hx(tpl_ast("P[" + p + "]", rng.choice(["x", "y"])))
+                if stateful:
+                    kind = rng.choices(["mutator", "reader", "plain"], [45, 40, 15])[0]
+                else:
+                    kind = "plain"
+                ast, reads, writes = gen_partial(rng, "P[" + p + "]", kind, fields)
+                files[hx(t + ".partial/" + p)] = hx(ast)
+                info[p] = (reads, writes)
             # a sibling template's partials must never leak in
             if rng.random() < 0.5:
                 other = rng.choice([u for u in TEMPLATES if u != t])
@@ -46,17 +260,24 @@ class C17(Prop):
                 for p in rng.sample(NAMES, 2):
                     files[hx(other + ".partial/" + p)] = hx(tpl_ast("OTHER[" + p + "]", "x"))
             mode = rng.random()
-            if mode < 0.15:
+            if mode < 0.12:
                 req = []
-            elif mode < 0.7 and existing:
+            elif mode < 0.75 and existing:
                 req = [rng.choice(existing) for _ in range(rng.randint(1, 6))]
             else:
                 pool = existing + [rng.choice(NAMES)] + ["nope"]
                 req = [rng.choice(pool) for _ in range(rng.randint(1, 5))]
             universe = sorted(set(NAMES + ["nope"]))
-            data = {"x": hx(rng.choice(["v1", "<b>&\"'", "", "ünï"])), "y": hx(rng.choice(["w", "2"]))}
+            hist, prep = gen_prep(rng, t, existing, req)
+            prep = other_data(rng, prep)
+            # mutator requested before a partial that reads what it changed (or requested twice)
+            sens = any(info[req[i]][1] & info[req[j]][0]
+                       for i in range(len(req)) for j in range(i + 1, len(req))
+                       if req[i] in info and req[j] in info)
             cases.append({"files": files, "template": hx(t), "partials": [hx(p) for p in req],
-                          "universe": [hx(u) for u in universe], "data": data})
+                          "universe": [hx(u) for u in universe], "data": gen_data(rng),
+                          "prep": prep, "debug": rng.random() < 0.1, "limit": rng.choice([0, 0, 0, 1, 2]),
+                          "meta": {"history": hist, "stateful": stateful, "mutator_before_reader": sens}})
         return cases
 
     def emit(self, case, obs):
@@ -76,36 +297,89 @@ class C17(Prop):
                 b"; go := " + go + b"; go_nil_on_err := " + cq_bool(obs["nil_map"]) + b" |}")
 
     def nontrivial(self, case, obs):
-        return len(case["partials"]) >= 2 or obs["class"] != "ok"
+        return len(case["partials"]) >= 2 or obs["class"] != "ok" or not case.get("prep")
 
     def sample(self, case, obs):
         return {"template": unhx(case["template"]).decode(), "files": sorted(unhx(k).decode() for k in case["files"]),
-                "request": [unhx(p).decode() for p in case["partials"]], "go_class": obs["class"],
+                "request": [unhx(p).decode() for p in case["partials"]],
+                "history": [o["op"] for o in case.get("prep", [])], "debug": case.get("debug", False),
+                "go_class": obs["class"],
                 "go_keys": [unhx(e["key"]).decode() for e in (obs["entries"] or [])]}
 
     def shrink(self, case):
+        def w(**kw):
+            c = dict(case)
+            c.update(kw)
+            return c
+        prep = case.get("prep", [])
+        for i in range(len(prep)):
+            yield w(prep=prep[:i] + prep[i + 1:])
+        for i in range(len(prep)):
+            if "data" in prep[i]:
+                yield w(prep=prep[:i] + [{k: v for k, v in prep[i].items() if k != "data"}] + prep[i + 1:])
+        if case.get("debug"):
+            yield w(debug=False)
+        if case.get("limit"):
+            yield w(limit=0)
         ps = case["partials"]
         for i in range(len(ps)):
-            c = dict(case)
-            c["partials"] = ps[:i] + ps[i + 1:]
-            yield c
+            yield w(partials=ps[:i] + ps[i + 1:])
         for k in list(case["files"]):
             if k != case["template"]:
-                c = dict(case)
-                c["files"] = {a: b for a, b in case["files"].items() if a != k}
-                yield c
+                yield w(files={a: b for a, b in case["files"].items() if a != k})
+        # fewer data fields / shorter lists (a template that needs the field then fails on the reference too,
+        # which changes the verdict, so such a step is simply not kept)
+        ents = case["data"]["v"]
+        for i in range(len(ents)):
+            yield w(data={"t": "map", "v": ents[:i] + ents[i + 1:]})
+        for i, (k, v) in enumerate(ents):
+            if v["t"] in ("arr", "strs", "map", "strmap") and len(v["v"]) > 1:
+                for j in range(len(v["v"])):
+                    v2 = {"t": v["t"], "v": v["v"][:j] + v["v"][j + 1:]}
+                    yield w(data={"t": "map", "v": ents[:i] + [[k, v2]] + ents[i + 1:]})
+        # drop single statements of a partial template
+        t = unhx(case["template"])
+        for k, v in case["files"].items():
+            if not unhx(k).startswith(t + b".partial/"):
+                continue
+            ast = json.loads(unhx(v))
+            try:
+                nodes = ast["nodes"][0]["block"]["nodes"]
+            except (KeyError, IndexError):
+                continue
+            if len(nodes) <= 1:
+                continue
+            for i in range(len(nodes)):
+                a2 = json.loads(unhx(v))
+                del a2["nodes"][0]["block"]["nodes"][i]
+                f2 = dict(case["files"])
+                f2[k] = hx(json.dumps(a2))
+                yield w(files=f2)
 
     def model_expr(self):
         return "render_partials (render_of c) (tname c) (req c)"
 
     def distribution(self, cases, obss):
-        d = {"empty_request": 0, "with_duplicates": 0, "with_unknown": 0, "go_error": 0}
+        d = {"empty_request": 0, "with_duplicates": 0, "with_unknown": 0, "go_error": 0,
+             "fresh_engine": 0, "fresh_engine_all_known_nonempty": 0, "stateful_partials": 0,
+             "mutator_before_reader": 0, "debug_engine": 0, "rate_limited": 0, "history": {}}
         for c, o in zip(cases, obss):
             ps = c["partials"]
             d["empty_request"] += not ps
             d["with_duplicates"] += len(set(ps)) < len(ps)
             d["go_error"] += o["class"] != "ok"
-            d["with_unknown"] += any(hx(unhx(c["template"]) + b".partial/" + unhx(p)) not in c["files"] for p in ps)
+            unk = any(hx(unhx(c["template"]) + b".partial/" + unhx(p)) not in c["files"] for p in ps)
+            d["with_unknown"] += unk
+            fresh = not c.get("prep")
+            d["fresh_engine"] += fresh
+            d["fresh_engine_all_known_nonempty"] += bool(fresh and ps and not unk)
+            m = c.get("meta", {})
+            d["stateful_partials"] += bool(m.get("stateful"))
+            d["mutator_before_reader"] += bool(m.get("mutator_before_reader"))
+            d["debug_engine"] += bool(c.get("debug"))
+            d["rate_limited"] += bool(c.get("limit"))
+            h = m.get("history", "corpus")
+            d["history"][h] = d["history"].get(h, 0) + 1
         return d
 
 
